@@ -80,11 +80,16 @@ class _Result:
         return False
 
 
+# token table shared by every adapter of this process (a restarted server must be able to decode what the
+# previous one stored); reset per explored path by fresh_sqlite()
+_VALS = {}
+_N = [0]
+
+
 class FakeAioConn:
     def __init__(self, raw=None):
         self.raw = raw if raw is not None else sqlite3.connect(":memory:")
-        self.vals = {}
-        self.n = 0
+        self.vals = _VALS
         self.statements = []
 
     # token adapter ---------------------------------------------------------
@@ -93,8 +98,8 @@ class FakeAioConn:
             return int(v)
         if not _is_symbolic(v):
             return v
-        self.n += 1
-        t = f"\x01SYM{self.n}\x01"
+        _N[0] += 1
+        t = f"\x01SYM{_N[0]}\x01"
         self.vals[t] = v
         return t
 
@@ -118,6 +123,9 @@ class FakeAioConn:
         return _Result(thunk)
 
     async def commit(self):
+        from .folder import maybe_yield
+
+        await maybe_yield()
         TREE.effect(("commit",))
         self.raw.commit()
 
@@ -143,6 +151,8 @@ class FakeAioConn:
 def fresh_sqlite(migrated=True):
     """A new in-memory sqlite3 database, schema built by the real migrations (cached dump)."""
     global _SCHEMA_DUMP
+    _VALS.clear()
+    _N[0] = 0
     raw = sqlite3.connect(":memory:")
     if not migrated:
         return raw
@@ -193,10 +203,16 @@ class NullDB:
         yield  # pragma: no cover
 
     async def execute(self, sql, *a, commit=False, **k):
+        from .folder import maybe_yield
+
+        await maybe_yield()
         TREE.effect(("sql", sql[:40]))
         self.statements.append(sql)
 
     async def commit(self):
+        from .folder import maybe_yield
+
+        await maybe_yield()
         TREE.effect(("commit",))
 
     async def close(self):
